@@ -205,6 +205,9 @@ func (a *adversary) craftFor(r *run, n *cnode) (*interfaces.ConsensusRawMessage,
 		if r.rnd.Intn(2) == 0 {
 			blk = nil
 		}
+		if r.rnd.Intn(3) == 0 { // the signed hash, but the block says it is of another height
+			return a.mkPP(ref(protocol.LEAN_HELIX_PREPREPARE, h, v, b), leader, "", &vBlock{height: h + 1, body: b.body}), "pp_block_of_other_height"
+		}
 		return a.mkPP(ref(protocol.LEAN_HELIX_PREPREPARE, h, v, b), leader, "", blk), "pp_block_mismatch"
 	case 3: // proposal signed by a non-leader
 		b := a.knownBlock(r, h)
@@ -411,6 +414,9 @@ func (a *adversary) craftNV(r *run, h, tv uint64) (*interfaces.ConsensusRawMessa
 	case 3:
 		d.ppBy = a.someSigner(r)
 		name += "_pp_signed_by_other"
+	case 4: // the attached block has the signed hash but says it is of another height (every consumer rejects it as a proposal for h)
+		blk = &vBlock{height: h + 1, body: b.body}
+		name += "_block_of_other_height"
 	}
 	return a.mkNV(d, blk), name
 }
